@@ -39,6 +39,7 @@ pub struct EncRun {
     pub verdict: Verdict,
     pub out: Vec<u8>,
     pub rc_carries: u64,
+    pub rc_carry_onto_ff: u64,
     pub rc_max_cachesz: u32,
     pub rc_shifts: u64,
 }
@@ -91,6 +92,7 @@ pub fn encode(enc: usize, reader: usize, data: &[u8], seed: u64, sink: &SharedSi
         },
         out: sink.bytes(),
         rc_carries: o.rc_carries,
+        rc_carry_onto_ff: o.rc_carry_onto_ff,
         rc_max_cachesz: o.rc_max_cachesz,
         rc_shifts: o.rc_shifts,
     }
@@ -205,6 +207,7 @@ fn check_one(
     cov.inc("length_class", match data.len() { 0 => 0, 1 => 1, 2..=65534 => 2, 65535 => 3, 65536 => 4, 65537 => 5, 65538..=131071 => 6, 131072 => 7, 131073 => 8, _ => 9 });
     cov.name("rc.shifts", er.rc_shifts);
     cov.name("rc.carries", er.rc_carries);
+    cov.name("rc.carries_onto_a_pending_0xFF_byte", er.rc_carry_onto_ff);
     cov.max("rc_cachesz", er.rc_max_cachesz as u64);
     out.nontrivial.push(case_hash(&[data, &[enc as u8, reader as u8]]));
     let what = format!("{} | input {} bytes ({}) | reader: {}", ENC[enc], data.len(), CONTENT[ckind], READERS[reader]);
@@ -334,13 +337,22 @@ struct LitSim {
     prev: u8,
     /// set when the last shift emitted bytes with a carry
     last_carry: bool,
+    /// a shift happened while a carry was pending AND the byte below the carry was 0xFF
+    /// (low in [0x1_FF00_0000, 0x2_0000_0000)): the carry resolves the pending run and the
+    /// byte that becomes the new cache is itself 0xFF
+    carry_onto_ff: u32,
+    shifts: u64,
 }
 
 impl LitSim {
     fn new() -> Self {
-        LitSim { lit: vec![[0x400; 0x300]; 8], is_match: [0x400; 4], low: 0, range: 0xFFFF_FFFF, cache_size: 1, pos: 0, prev: 0, last_carry: false }
+        LitSim { lit: vec![[0x400; 0x300]; 8], is_match: [0x400; 4], low: 0, range: 0xFFFF_FFFF, cache_size: 1, pos: 0, prev: 0, last_carry: false, carry_onto_ff: 0, shifts: 0 }
     }
     fn shift(&mut self) {
+        self.shifts += 1;
+        if (self.low >> 32) != 0 && (self.low as u32) >= 0xFF00_0000 {
+            self.carry_onto_ff += 1;
+        }
         if (self.low as u32) < 0xFF00_0000 || (self.low >> 32) != 0 {
             self.last_carry = (self.low >> 32) != 0;
             self.cache_size = 0;
@@ -362,6 +374,36 @@ impl LitSim {
             self.range <<= 8;
             self.shift();
         }
+    }
+    /// Encode one literal on a scratch copy of (low, range) only: returns the
+    /// resulting (low, range) and whether a carry landed on an 0xFF byte on the way.
+    fn trial(&self, b: u8) -> (u64, u32, bool) {
+        let (mut low, mut range, mut hit) = (self.low, self.range, false);
+        let mut step = |p: u16, bit: u32| {
+            let bound = (range >> 11) * (p as u32);
+            if bit == 0 {
+                range = bound;
+            } else {
+                low += bound as u64;
+                range -= bound;
+            }
+            while range < 0x0100_0000 {
+                range <<= 8;
+                if (low >> 32) != 0 && (low as u32) >= 0xFF00_0000 {
+                    hit = true;
+                }
+                low = (low & 0x00FF_FFFF) << 8;
+            }
+        };
+        step(self.is_match[self.pos & 3], 0);
+        let ctx = (self.prev >> 5) as usize;
+        let mut sym = 1usize;
+        for i in (0..8).rev() {
+            let bit = ((b >> i) & 1) as u32;
+            step(self.lit[ctx][sym], bit);
+            sym = (sym << 1) | bit as usize;
+        }
+        (low, range, hit)
     }
     fn literal(&mut self, b: u8) {
         self.last_carry = false;
@@ -449,6 +491,83 @@ fn fam_adversarial(ctx: &CaseCtx, cov: &mut Cov) -> CaseOut {
     out
 }
 
+/// Build an input during whose encoding a carry arrives while the byte under
+/// the carry is 0xFF (low in [0x1_FF00_0000, 0x2_0000_0000) at a shift) - the
+/// corner of `write_low` where both halves of its flush condition are true.
+/// Steering: greedy on the top of the coding interval, two-literal look-ahead
+/// for the hit once the interval reaches into the target.
+fn carry_onto_ff_input(rng: &mut Rng, max_steps: usize) -> Option<Vec<u8>> {
+    let mut sim = LitSim::new();
+    let mut out: Vec<u8> = Vec::new();
+    // small byte values skew the top of the literal tree, so that a later byte with high
+    // bits set takes almost the whole interval (needed to climb to its very top)
+    let alpha = *rng.pick(&[8u64, 16, 32, 32, 64]);
+    for _ in 0..rng.range(24, 96) {
+        let b = rng.below(alpha) as u8;
+        sim.literal(b);
+        out.push(b);
+    }
+    let base_hits = sim.carry_onto_ff;
+    for _ in 0..max_steps {
+        for b in 0..=255u8 {
+            let (low, range, hit) = sim.trial(b);
+            if hit {
+                out.push(b);
+                return Some(out);
+            }
+            // promising: after the is_match bit of the literal after `b` the coder shifts and is
+            // left with both `low` and `range` close to 2^32, the interval reaching into the target
+            let p = sim.is_match[(sim.pos + 1) & 3] as u32;
+            let bound = (range >> 11) * p;
+            if bound < 0x0100_0000 && bound >= 0x00FE_0000 && ((low >> 16) & 0xFF) == 0xFF && ((low & 0x00FF_FFFF) << 8) + ((bound as u64) << 8) > 0x1_FF00_0000 {
+                let mut t = sim.clone();
+                t.literal(b);
+                for c in 0..=255u8 {
+                    if t.trial(c).2 {
+                        out.push(b);
+                        out.push(c);
+                        return Some(out);
+                    }
+                }
+            }
+        }
+        let b = if rng.chance(1, 12) { rng.byte() } else { rng.below(alpha) as u8 };
+        sim.literal(b);
+        out.push(b);
+    }
+    let _ = base_hits;
+    None
+}
+
+pub fn debug_trace(data: &[u8]) {
+    let mut sim = LitSim::new();
+    for (i, &b) in data.iter().enumerate() {
+        let before = (sim.low, sim.range, sim.shifts);
+        sim.literal(b);
+        println!("{:3} byte {:3}: before low {:#011x} range {:#010x} top {:#011x} | after low {:#011x} range {:#010x} shifts {} hit {}", i, b, before.0, before.1, before.0 + before.1 as u64, sim.low, sim.range, sim.shifts - before.2, sim.carry_onto_ff);
+    }
+}
+
+/// inputs constructed so that a carry lands on an 0xFF byte in the range encoder
+fn fam_carry_onto_ff(ctx: &CaseCtx, cov: &mut Cov) -> CaseOut {
+    let mut out = CaseOut::default();
+    let mut rng = ctx.rng();
+    match carry_onto_ff_input(&mut rng, ctx.tier.pick(60_000, 400_000)) {
+        Some(mut data) => {
+            cov.name("carry_onto_ff.inputs_constructed", 1);
+            cov.max("carry_onto_ff.input_len", data.len() as u64);
+            for _ in 0..rng.range(0, 24) {
+                data.push(rng.byte());
+            }
+            let enc = *rng.pick(&[0usize, 1, 2]);
+            let _ = check_one(&mut out, cov, ctx, enc, 0, 6, &data, 1);
+            out.sample = Some(J::obj().set("encoder", J::s(ENC[enc])).set("input_len", J::i(data.len())).set("constructed", J::s("carry arrives while the byte under it is 0xFF")));
+        }
+        None => cov.name("carry_onto_ff.search_gave_up", 1),
+    }
+    out
+}
+
 fn label(group: &str, i: u32) -> String {
     match group {
         "encoder" => ENC[i as usize].to_string(),
@@ -467,6 +586,9 @@ fn floors(_: Tier, cov: &Cov) -> Vec<String> {
     if cov.maxes.get("adversarial_pending_run_observed_by_hook").copied().unwrap_or(0) < 10 {
         m.push("no pending-0xFF run of 10 or more bytes observed in the range encoder".into());
     }
+    if cov.get_named("rc.carries_onto_a_pending_0xFF_byte") < 3 {
+        m.push("fewer than 3 carries onto an 0xFF byte observed in the range encoder (RcShift hook)".into());
+    }
     if cov.get_named("rc.carries") == 0 {
         m.push("no carry observed in the range encoder".into());
     }
@@ -477,7 +599,7 @@ pub fn monitor(tier: Tier) -> Monitor {
     Monitor {
         id: "C04",
         level: "exploration",
-        rule: "cases = (input bytes, encoder in {lzma x 3 options, lzma2, xz}, input fragmentation in 5 patterns): a fixed grid over the boundary lengths 0/1/2/65535/65536/65537/131072/131073, seeded random cases (7 content kinds, lengths up to 1 MiB) a hook-guided search that mutates inputs to maximise pending-0xFF runs and carries in the range encoder (RcShift events), and inputs CONSTRUCTED with an exact arithmetic model of the literal coder so that the carry stays undecided for 2..14 output bytes and is then resolved with / without a carry (the RcShift hook confirms the run length the real encoder went through); every encoder output must (i) decode back with lzma-rs and the matching option, (ii) satisfy the reference decoder / strict LZMA2 reader / strict XZ parser incl. header fields and exact payload length, (iii) decode with liblzma; distinct by hash of (input, encoder, reader)",
+        rule: "cases = (input bytes, encoder in {lzma x 3 options, lzma2, xz}, input fragmentation in 5 patterns): a fixed grid over the boundary lengths 0/1/2/65535/65536/65537/131072/131073, seeded random cases (7 content kinds, lengths up to 1 MiB) a hook-guided search that mutates inputs to maximise pending-0xFF runs and carries in the range encoder (RcShift events), and inputs CONSTRUCTED with an exact arithmetic model of the literal coder so that the carry stays undecided for 2..14 output bytes and is then resolved with / without a carry (the RcShift hook confirms the run length the real encoder went through), or so that a carry arrives while the byte under it is itself 0xFF - low in [0x1_FF00_0000, 2^33) at a shift, the corner where both halves of the flush condition hold; found by a steered search on the model, confirmed by the hook's view of the real encoder's low register; every encoder output must (i) decode back with lzma-rs and the matching option, (ii) satisfy the reference decoder / strict LZMA2 reader / strict XZ parser incl. header fields and exact payload length, (iii) decode with liblzma; distinct by hash of (input, encoder, reader)",
         assumptions: vec![
             "WriteToHeader(Some(x)) with x != input length is a documented caller error and is not generated".into(),
             "independent conforming decoders = reference decoder (self-checked) and system liblzma".into(),
@@ -487,6 +609,7 @@ pub fn monitor(tier: Tier) -> Monitor {
             Family { name: "random", count: tier.pick(4_000, 200_000), priority: false, enumerated: false, run: fam_random },
             Family { name: "guided", count: tier.pick(150, 4000), priority: false, enumerated: false, run: fam_guided },
             Family { name: "adversarial_carry", count: tier.pick(120, 4000), priority: true, enumerated: false, run: fam_adversarial },
+            Family { name: "carry_onto_ff", count: tier.pick(40, 1500), priority: true, enumerated: false, run: fam_carry_onto_ff },
         ],
         label,
         floors,
